@@ -10,4 +10,4 @@ pub mod txm;
 #[cfg(kani)]
 mod c03;
 #[cfg(kani)]
-mod exp;
+mod c04;
